@@ -792,6 +792,12 @@ NUMS_G = [n for n in [1, 2, 3, 4, 5, 6, 7] if n < 4]
 CONFIG.setdefault("TOOLCHAIN", {"CC": "gcc", "OPT": "-O1"})
 CONFIG.setdefault("TCLIST", ["-a", "-b"])
 
+def dfltd(d = {"a": "b", "l": ["m", "n"]}):
+    return d
+
+def dfltl(l = ["p", "q"]):
+    return l
+
 def glist():
     return LIST_G
 
@@ -819,7 +825,7 @@ def mixed(extra = None):
 def observe():
     return "|".join([str(lit()), str(nested()), str(litd()), str(mixed()), str(LIST_G), str(NEST_G), str(DICT_G),
                      str(FILT_G), str(SLICE_G), str(NUMS_G), str(FILT_G + ["obs"]), str(SLICE_G + ["obs"]), str(NUMS_G + [0]),
-                     str(glist()), str(gnest()), str(gdict()), str(CONFIG.TOOLCHAIN), str(CONFIG.BUILD_FILE_NAMES), str(CONFIG.TCLIST)])
+                     str(glist()), str(gnest()), str(gdict()), str(CONFIG.TOOLCHAIN), str(CONFIG.BUILD_FILE_NAMES), str(CONFIG.TCLIST), str(dfltd()), str(dfltl())])
 '''
 
 # mutation / re-ordering idioms; each is a few statements using a fresh variable prefix
@@ -879,6 +885,12 @@ C17_IDIOMS = [
     ('x = reversed(CONFIG.BUILD_FILE_NAMES)',),
     ('x = CONFIG.BUILD_FILE_NAMES + ["own"]', 'x[0] = "MUT_%s"'),
     ('CONFIG.TOOLCHAIN = {"CC": "MUT_%s"}',),
+    # default argument values of the build_defs' functions
+    ('x = dfltd()', 'x["a"] = "MUT_%s"'),
+    ('x = dfltd()', 'y = x["l"]', 'y[0] = "MUT_%s"'),
+    ('x = dfltl()', 'x[1] = "MUT_%s"'),
+    ('x = sorted(dfltl())',),
+    ('x = dfltl() + ["own"]', 'x[0] = "MUT_%s"'),
     ('CONFIG["TCLIST"] = ["MUT_%s"]',),
 ]
 
